@@ -34,6 +34,8 @@ def canonical_rows(N):
            K('list', [-1, 1 % max(N, 1), 1 % max(N, 1)] if N else [])]
     ks += [K('mask', [True] * N), K('mask', [i % 2 == 0 for i in range(N)]), K('mask', [False] * N)]
     ks.append(K('ell'))
+    # NumPy integers (what np.argmax / np.where hand back) are integers too
+    ks += [K('npint', 0), K('npint', -1)]
     return ks
 
 
@@ -60,9 +62,11 @@ def canonical_cols(D, names):
 
 
 def rand_rows(rng, N):
-    t = rng.wchoice([('int', 3), ('slice', 4), ('list', 2), ('mask', 2), ('ell', 1)])
+    t = rng.wchoice([('int', 3), ('slice', 4), ('list', 2), ('mask', 2), ('ell', 1), ('npint', 1)])
     if t == 'int':
         return K('int', rng.randint(-N - 1, N))
+    if t == 'npint':
+        return K('npint', rng.randint(-N - 1, N))
     if t == 'slice':
         return K('slice', [rng.choice([None, 0, 1, -2, N]), rng.choice([None, -1, N - 1, 2, N + 3]),
                            rng.choice([None, 1, 2, 3, -1, -2, 0 if rng.chance(0.3) else 1])])
